@@ -1,0 +1,45 @@
+//! Verification hooks (feature `verif`, off by default). See /verif/DESIGN.md section 8.
+//!
+//! `crashpoint` marks the instants immediately before / after a durable write. A harness can count them and arm one:
+//! in-process the armed point unwinds (the harness then drops every in-memory object and reopens the database, which is
+//! what a crash leaves behind); with `TEOS_VERIF_CRASH_ABORT` set the process aborts instead. With nothing armed it only counts.
+
+use std::sync::atomic::{AtomicUsize, Ordering};
+use std::sync::Mutex;
+
+static COUNTER: AtomicUsize = AtomicUsize::new(0);
+static ARMED: AtomicUsize = AtomicUsize::new(usize::MAX);
+static LABELS: Mutex<Vec<&'static str>> = Mutex::new(Vec::new());
+
+/// Message carried by the unwinding of an armed crash point.
+pub const CRASH_MSG: &str = "verif: simulated crash";
+
+pub fn crashpoint(label: &'static str) {
+    let n = COUNTER.fetch_add(1, Ordering::SeqCst);
+    if let Ok(mut l) = LABELS.lock() {
+        l.push(label);
+    }
+    let armed = ARMED.load(Ordering::SeqCst);
+    let from_env = std::env::var("TEOS_VERIF_CRASH_AT").ok().and_then(|s| s.parse::<usize>().ok());
+    if n == armed || from_env == Some(n) {
+        ARMED.store(usize::MAX, Ordering::SeqCst);
+        if from_env.is_some() || std::env::var("TEOS_VERIF_CRASH_ABORT").is_ok() {
+            std::process::abort();
+        }
+        panic!("{CRASH_MSG} at point {n} ({label})");
+    }
+}
+
+/// Arms the `k`-th crash point from now (0-based) and restarts counting.
+pub fn arm(k: Option<usize>) {
+    COUNTER.store(0, Ordering::SeqCst);
+    if let Ok(mut l) = LABELS.lock() {
+        l.clear();
+    }
+    ARMED.store(k.unwrap_or(usize::MAX), Ordering::SeqCst);
+}
+
+/// Number of crash points passed since the last `arm`, with their labels.
+pub fn passed() -> (usize, Vec<&'static str>) {
+    (COUNTER.load(Ordering::SeqCst), LABELS.lock().map(|l| l.clone()).unwrap_or_default())
+}
